@@ -123,7 +123,9 @@ def main():
     S_, M_, K_, L_ = templates.S, templates.M, templates.K, templates.L
     reps = [(name, templates.render(rule)) for fam, name, rule in templates.select(ck.tier, ck.seed) if fam in ('dotted', 'nested') and '&n.' not in name and 'rows' not in name]
     # path segments that look like numbers, and indices at depth: what a JSON pointer / another resolver would read differently
-    for nm, rule in (('tags.1', templates.single('tags.1', S_('a'))), ('n.0.f', templates.single('n.0.f', S_('a'))),
+    for nm, rule in (('f: null', templates.single('f', ('null',))), ('not f>3', {'idents': {'A': M_((K_('f'), S_('>3')))}, 'cond': ('not', ('id', 'A'))}),
+                     ('n.f null', templates.single('n.f', ('null',))),
+                     ('tags.1', templates.single('tags.1', S_('a'))), ('n.0.f', templates.single('n.0.f', S_('a'))),
                      ('n.f[1]', templates.single('n.f[1]', S_('a'))), ('not n.1', {'idents': {'A': M_((K_('n.1'), S_('a')))}, 'cond': ('not', ('id', 'A'))})):
         reps.append(('numeric-segment/' + nm, templates.render(rule)))
     ck.run_units([('prims',), ('serde',), ('containers',), ('kernel',), ('overrides',)] + [('representations', nm, y) for nm, y in reps], run_unit, jobs=8)
@@ -321,9 +323,16 @@ def representations_unit(ck, name, yaml):
         n_json = br.call(cmd='eval_yaml', yaml=yaml, opts=None, doc_text=text, json=True)
         n += 1
         got = {'object': n_obj.get('verdict'), 'yaml': n_yaml.get('verdict'), 'json': n_json.get('verdict')}
+        # a std HashMap<String, V> at the top level, and everything again in the build with the `sync` feature (which
+        # compiles separately written copies of the Object trait and of the HashMap adapter)
+        got['hashmap'] = br.call(cmd='eval', yaml=yaml, opts=None, doc=docj, mode='hashmap').get('verdict')
+        brs = ck.bridge(sync=True)
+        got['sync:object'] = brs.call(cmd='eval', yaml=yaml, opts=None, doc=docj, mode='object').get('verdict')
+        got['sync:hashmap'] = brs.call(cmd='eval', yaml=yaml, opts=None, doc=docj, mode='hashmap').get('verdict')
+        got['sync:yaml'] = brs.call(cmd='eval_yaml', yaml=yaml, opts=None, doc_text=text).get('verdict')
         if len(set(got.values())) == 1 and got['object'] == want:
             ck.discharged += 1
-            ck.replays_ok += 3
+            ck.replays_ok += len(got)
             continue
         path = ck.write_replay('representations_' + safe(name) + '_%d_%d%s' % (val, i, 'n' if extra else ''), {'rule': yaml, 'document': _json.loads(text), 'doc': docj, 'verdicts': got,
                                                                              'mir_path_returns': bool(want), 'native': [n_obj, n_yaml, n_json]})
